@@ -7,15 +7,23 @@ from pyvc.verify import verify_one
 from pyvc.api import CONTRACTS, LEMMAS
 repo = Repo()
 spec = ast.parse(open('/verif/contracts/spec.py').read())
-eng = Engine(repo, spec)
+eng = Engine(repo, spec, contracts.INLINE)
 keys = [k for k in sys.argv[1:] if not k.startswith('-')] or list(CONTRACTS)+list(LEMMAS)
 for k in keys:
     c = CONTRACTS.get(k)
     ctxs = (c.contexts if c is not None else None) or [None]
+    lmv = LEMMAS[k].contract_kw.get("variants", []) if k in LEMMAS else []
+    runs = []
     for ctx in ctxs:
+        runs.append((ctx, None))
+        runs += [(ctx, dict(v)) for v in lmv]
+        if c is not None:
+            runs += [(ctx, tuple(a)) for a in c.alias_cases]
+            runs += [(ctx, dict(v)) for v in c.variants]
+    for ctx, al in runs:
         t0 = time.time()
-        r = verify_one(eng, k, ctx, timeout_ms=10000)
-        print(f"== {k} [{ctx}] paths={r.paths} {time.time()-t0:.2f}s", "UNSUPPORTED: "+r.unsupported if r.unsupported else "", r.error or "", "VACUOUS" if r.vacuous else "")
+        r = verify_one(eng, k, ctx, timeout_ms=10000, alias=al)
+        print(f"== {k} [{ctx}] {al or ''} paths={r.paths} {time.time()-t0:.2f}s", "UNSUPPORTED: "+r.unsupported if r.unsupported else "", r.error or "", "VACUOUS" if r.vacuous else "")
         for o in r.obligations:
             if o['status'] != 'proved' or '-v' in sys.argv:
                 print("   ", o['status'], o['time'], o['name'], o['reason'])
